@@ -65,7 +65,9 @@ def shards(tier):
     for i in (range(len(ps)) if tier == "thorough" else (0, 4, 8)):
         for first in range(len(small_events(ps[i]))):
             out.append(("bfs", i, first))
-    out.append(("values", 0, 0))
+    for pi in range(3):
+        for pre_i in range(8):
+            out.append(("values", pi, pre_i))
     return out
 
 
@@ -181,7 +183,12 @@ class Run:
         self.push = False
         model = RefAC(cap_pages=cap_pages(profile))
 
+        self.energy_silent = False
+
         def script(req):
+            if (self.energy_silent and req.frame is not None and len(req.frame) > 13 and req.frame[10] == 0x41
+                    and req.frame[11] == 0x21 and req.frame[13] in (0x44, 0x45)):
+                return      # this unit simply does not answer energy / humidity queries
             if self.push and req.frame is not None and len(req.frame) > 10 and req.frame[10] == 0xB1 and model.prop_gets and model.prop_gets[-1]:
                 # an unsolicited, truthful status push for ONE of the queried properties arrives back to back with the reply
                 # (same instant, so both are consumed by this exchange)
@@ -296,6 +303,15 @@ class Run:
                 self.push = False
                 self._check_readback(kind)
 
+            elif kind == "state":
+                # the settings carried by the state protocol are whatever the user likes (swinging louvres, any mode)
+                ac.power_state = True
+                ac.swing_mode = AC.SwingMode(ev[1])
+                ac.operational_mode = AC.OperationalMode(ev[2])
+            elif kind == "energy-silent":
+                ac.enable_energy_usage_requests = True
+                self.observer.enable_energy_usage_requests = True
+                self.energy_silent = True
             elif kind == "unit-clean":
                 self.model.props[rd.P_SELF_CLEAN] = b"\x01" if ev[1] else b"\x00"
             elif kind == "clean":
@@ -429,12 +445,13 @@ def run_bfs(st, profile, depth, first):
     st.notes.setdefault("bfs_max_depth", maxd)
 
 
-def run_values(st, tier):
-    for profile in [("control", "5", True, True), ("legacy", "2", True, True), ("control", "2", False, True)]:
+def run_values(st, tier, pi, pre_i):
+    for profile in [("control", "5", True, True), ("legacy", "2", True, True), ("control", "2", False, True)][pi:pi + 1]:
         for ev in events_for(profile, full_values=True):
             if ev[0] != "set":
                 continue
-            for pre in ([], [("apply",)], [("set", "breezeless", True), ("apply",)]):
+            for pre in ([], [("apply",)], [("set", "breezeless", True), ("apply",)], [("state", 0xF, 2)], [("state", 0xC, 4), ("apply",)],
+                        [("state", 0x3, 1)], [("energy-silent",)], [("energy-silent",), ("refresh",)])[pre_i:pre_i + 1]:
                 hist = pre + [ev, ("apply",), ("refresh",), ("apply",), ("refresh",)]
                 f, bad = check(st, profile, hist)
                 # read back equal: after set v; apply; refresh the attribute still has the value set
@@ -461,7 +478,7 @@ def run_shard(shard, tier) -> Stats:
     elif shard[0] == "bfs":
         run_bfs(st, profiles(tier)[shard[1]], d["bfs"], shard[2])
     else:
-        run_values(st, tier)
+        run_values(st, tier, shard[1], shard[2])
     st.traces = st.evaluations
     return st
 
